@@ -65,7 +65,7 @@ func c17(r *Report) {
 					continue // reading an exported entry's response is the observation noted above
 				}
 				if st[a.Fn] == nil {
-					st[a.Fn] = lockStates(a.Fn, nil)
+					st[a.Fn] = lockStates(a.Fn, w.closureEntryLocks(a.Fn))
 				}
 				ls := st[a.Fn][a.Instr]
 				held := false
